@@ -185,12 +185,21 @@ class CategoricalCalibration(keras.layers.Layer):
       # losses which we have.
       kernel_reg = lambda x: tf.add_n([r(x) for r in self.kernel_regularizer])
 
+    kernel_initializer = self.kernel_initializer
+    if self.monotonicities:
+      # Random (or otherwise unordered) initial values do not respect the
+      # ordering pairs by themselves, but a freshly built layer must already
+      # satisfy its constraints: project the initial values.
+      kernel_initializer = (
+          lambda shape, dtype=None, **kwargs: constraints(
+              self.kernel_initializer(shape, dtype=dtype, **kwargs)))
+
     # categorical calibration layer kernel is units-column matrix with value of
     # output(i) = self.kernel[i]. Default value converted to the last index.
     self.kernel = self.add_weight(
         CATEGORICAL_CALIBRATION_KERNEL_NAME,
         shape=[self.num_buckets, self.units],
-        initializer=self.kernel_initializer,
+        initializer=kernel_initializer,
         regularizer=kernel_reg,
         constraint=constraints,
         dtype=self.dtype)
